@@ -117,7 +117,24 @@ func (r *runner) forgedLinks(rng *ev.Rand, cp *chainkit.Blk) types.SupLinks {
 			}
 		}
 	}
-	return types.SupLinks{l}
+	links := types.SupLinks{l}
+	// links that cannot even be checked: an unknown source, a known source with the wrong height.  The
+	// supLinks are not covered by the block hash or the proposer's signature: whoever relays the block
+	// can attach them.
+	if rng.Chance(1, 3) {
+		bad := &types.SupLink{SourceHeight: src.Height, SourceHash: bc.NewHash([32]byte(rng.Bytes(32)))}
+		if rng.Bool() {
+			bad = &types.SupLink{SourceHeight: src.Height + r.net.P.Epoch, SourceHash: src.Hash}
+		}
+		bad.Signatures[rng.Intn(n)] = r.net.SignVote(r.net.Prv[rng.Intn(r.net.P.NKeys)], bad.SourceHash, cp.Hash)
+		if rng.Bool() {
+			links = append(links, bad)
+		} else {
+			links = append(types.SupLinks{bad}, links...)
+		}
+		r.c.Count("blocks_with_uncheckable_header_links", 1)
+	}
+	return links
 }
 
 func (r *runner) markStored(b *chainkit.Blk, delivered map[bc.Hash]bool) {
@@ -150,11 +167,17 @@ func (r *runner) run(steps []chainkit.Step, o runOpt, check func(si int, s chain
 					b.SupLinks = r.forgedLinks(rng, s.Blk)
 					c.Count("blocks_with_forged_header_links", 1)
 				}
-				// move up to two later scheduled votes for this target into the header
-				moved := 0
-				for sj := si + 1; sj < len(steps) && moved < 2; sj++ {
+				// move later scheduled votes for this target into the header: up to two, or (one block in four)
+				// all of them, so that a header alone can justify its checkpoint and finalize the parent, also
+				// when the block is connected as a waiting orphan
+				moved, maxMove, pick := 0, 2, 3
+				if rng.Chance(1, 4) {
+					maxMove, pick = 4, 1
+					c.Count("blocks_carrying_all_their_votes", 1)
+				}
+				for sj := si + 1; sj < len(steps) && moved < maxMove; sj++ {
 					v := steps[sj].Vote
-					if v == nil || v.Target.Hash != s.Blk.Hash || v.Garbage || !rng.Chance(1, 3) {
+					if v == nil || v.Target.Hash != s.Blk.Hash || v.Garbage || !rng.Chance(1, pick) {
 						continue
 					}
 					order := -1
